@@ -733,6 +733,100 @@ pub fn child_crash(args: &[String]) -> i32 {
     0
 }
 
+thread_local! {
+    static APPEND_DEPTH: std::cell::Cell<u32> = const { std::cell::Cell::new(0) };
+}
+
+/// Sits between the logger and the rolling appender in the global-logger child: an append that arrives on a thread
+/// which is already inside this appender would block for ever on the appender's own lock - it is recorded and
+/// turned away instead.
+#[derive(Debug)]
+struct ReentryGuard {
+    inner: log4rs::append::rolling_file::RollingFileAppender,
+    reentries: std::sync::Arc<std::sync::Mutex<Vec<String>>>,
+}
+
+impl Append for ReentryGuard {
+    fn append(&self, record: &log::Record) -> anyhow::Result<()> {
+        if APPEND_DEPTH.with(|d| d.get()) > 0 {
+            self.reentries.lock().unwrap().push(format!("{} {}: {}", record.level(), record.target(), record.args()));
+            return Ok(());
+        }
+        APPEND_DEPTH.with(|d| d.set(d.get() + 1));
+        let r = self.inner.append(record);
+        APPEND_DEPTH.with(|d| d.set(d.get() - 1));
+        r
+    }
+    fn flush(&self) {}
+}
+
+/// Child: log4rs is the process-wide logger, the root logger writes to one rolling appender (the everyday
+/// deployment), and a rotation fails.
+pub fn child_global(args: &[String]) -> i32 {
+    use log4rs::config::{Appender, Config, Root};
+    let root = PathBuf::from(&args[0]);
+    // the archive directory is a regular file: every rotation fails
+    std::fs::write(root.join("arch"), b"not a directory").unwrap();
+    let roller = log4rs::append::rolling_file::policy::compound::roll::fixed_window::FixedWindowRoller::builder()
+        .build(root.join("arch/app.{}.log").to_str().unwrap(), 2).unwrap();
+    let inner = match build_appender(&root, true, Box::new(PatternEncoder::new("{m}{n}")), Box::new(SizeTrigger::new(30)), Box::new(roller)) {
+        Ok(a) => a,
+        Err(e) => {
+            println!("RESULT {}", json!({"error": e.to_string()}));
+            return 0;
+        }
+    };
+    let reentries = std::sync::Arc::new(std::sync::Mutex::new(vec![]));
+    let errors = std::sync::Arc::new(std::sync::Mutex::new(0u32));
+    let e2 = errors.clone();
+    let cfg = Config::builder()
+        .appender(Appender::builder().build("file", Box::new(ReentryGuard { inner, reentries: reentries.clone() })))
+        .build(Root::builder().appender("file").build(log::LevelFilter::Trace)).unwrap();
+    if log4rs::config::init_config_with_err_handler(cfg, Box::new(move |_| *e2.lock().unwrap() += 1)).is_err() {
+        println!("RESULT {}", json!({"error": "init_config failed"}));
+        return 0;
+    }
+    for k in 0..4 {
+        log::info!("record number {} is longer than the limit of thirty bytes", k);
+    }
+    println!("RESULT {}", json!({"appends_that_arrived_while_the_appender_was_busy_on_the_same_thread": *reentries.lock().unwrap(),
+        "errors_handed_to_the_error_handler": *errors.lock().unwrap()}));
+    0
+}
+
+fn global_logger_case(rep: &mut Report) {
+    if rep.only.is_some() {
+        return;
+    }
+    let sc = Scratch::new("c08g");
+    match crate::childproc::run_child(&["c08global".to_owned(), sc.path.to_str().unwrap().to_owned()], &[], std::time::Duration::from_secs(120)) {
+        Err(e) => rep.inconclusive(&format!("cannot spawn the global-logger child: {}", e)),
+        Ok(o) if o.timed_out => rep.inconclusive("global-logger child timed out (watchdog)"),
+        Ok(o) => {
+            let text = String::from_utf8_lossy(&o.stdout);
+            let Some(line) = text.lines().rev().find(|l| l.starts_with("RESULT ")) else {
+                rep.inconclusive("global-logger child produced no result");
+                return;
+            };
+            let v: Value = serde_json::from_str(&line[7..]).unwrap_or(Value::Null);
+            if v.get("error").is_some() {
+                rep.inconclusive(&format!("global-logger child: {}", v["error"]));
+                return;
+            }
+            rep.case_enumerated(true);
+            rep.count("global_logger_children", 1);
+            let re = v["appends_that_arrived_while_the_appender_was_busy_on_the_same_thread"].as_array().cloned().unwrap_or_default();
+            if !re.is_empty() {
+                rep.violation("C08:failing-append-logs-through-the-global-logger-while-it-holds-its-own-lock", json!({
+                    "what": "with log4rs installed as the process-wide logger and the root logger writing to this appender, the failing rotation                              logged through the `log` macros from inside append(): that nested append blocks for ever on the appender's lock, so the failing append never returns",
+                    "nested_records": re}));
+            } else if v["errors_handed_to_the_error_handler"].as_u64().unwrap_or(0) == 0 {
+                rep.violation("C08:fault:append-did-not-report-the-failed-rotation:global-logger", json!({"observed": v}));
+            }
+        }
+    }
+}
+
 pub fn run(rep: &mut Report) {
     hooks::install();
     rep.rule = "fault enumeration: for generated histories (window sizes 1-4 x base 0/1 x append/truncate x post-processing size trigger / \
@@ -750,6 +844,7 @@ pub fn run(rep: &mut Report) {
     if thorough {
         run_cases(rep, "realcrash", 40, real_crash);
     }
+    global_logger_case(rep);
     rep.exhaustive = Some(false);
     rep.set_extra("enumeration", json!("exhaustive over the hook points of each generated history; histories are sampled"));
     rep.require(rep.counter("crash_images_checked") > 100, "fewer than 100 crash images");
